@@ -19,7 +19,10 @@ def main():
         S.poison(S.poison_sizes(spec.get('npulses', 10), [40, 370]), pv)
     r = W.run_main(spec['argv'], se.disk)
     r['hashseed'] = os.environ.get('PYTHONHASHSEED')
-    json.dump(r, sys.stdout)
+    # the tap has replaced sys.stdout for the program; the harness speaks
+    # through the interpreter's original stream
+    json.dump(r, sys.__stdout__)
+    sys.__stdout__.flush()
 
 
 if __name__ == '__main__':
